@@ -1789,11 +1789,11 @@ class LeCreditBasedChannel(utils.EventEmitter):
         if self.in_sdu_length == 0:
             # We don't know the size yet, check if we have received the header to
             # compute it
-            if len(self.in_sdu) >= 2:
-                self.in_sdu_length = struct.unpack_from('<H', self.in_sdu, 0)[0]
-        if self.in_sdu_length == 0:
-            # We'll compute it later
-            return
+            if len(self.in_sdu) < 2:
+                # We'll compute it later
+                return
+            # (the length may well be 0: an empty SDU is complete with its header)
+            self.in_sdu_length = struct.unpack_from('<H', self.in_sdu, 0)[0]
         if len(self.in_sdu) < 2 + self.in_sdu_length:
             # Not complete yet
             logger.debug(
